@@ -907,6 +907,8 @@ func (env *Env) call(x *ast.CallExpr) Val {
 	case "distinctArrays":
 		a := env.eval(x.Args[0]).(*Term)
 		b := env.eval(x.Args[1]).(*Term)
+		// different backing arrays, or one of them has no capacity at all (nothing can be
+		// read or written through it) — the same condition the executable helper tests
 		return tb.Or(tb.Not(tb.Eq(m.SliceRef(a), m.SliceRef(b))), tb.Eq(m.SliceRef(a), tb.Int(0)))
 	case "freshArray":
 		// freshArray(s): the array backing s was allocated during the call (assumed at a
@@ -922,6 +924,17 @@ func (env *Env) call(x *ast.CallExpr) Val {
 		// sameValue(a, b): identical values (for types Go cannot compare with ==:
 		// structs holding slices; slices are compared as headers)
 		return tb.Eq(env.eval(x.Args[0]).(*Term), env.eval(x.Args[1]).(*Term))
+	case "freshObject":
+		// freshObject(p): p is nil or points to an object allocated during the call
+		// (assumed at a call site) / by this function (proved)
+		ref, ok := env.eval(x.Args[0]).(*Term)
+		if !ok {
+			panic(u.errf("contract: freshObject needs a pointer to a struct"))
+		}
+		if env.assuming && env.old != nil {
+			return tb.Or(tb.Eq(ref, tb.Int(0)), tb.And(tb.Not(tb.Select(u.allocSet(env.old.st), ref)), tb.Lt(tb.Int(0), ref)))
+		}
+		return tb.Or(tb.Eq(ref, tb.Int(0)), tb.And(tb.Not(u.isAlloc0(ref)), tb.Lt(tb.Int(0), ref)))
 	case "sameSlice":
 		// sameSlice(a, b): the same slice header (array, start, length, capacity)
 		return tb.Eq(env.eval(x.Args[0]).(*Term), env.eval(x.Args[1]).(*Term))
